@@ -49,7 +49,7 @@ PROPS = {
              "one simulated name-service table per run (7 bits: tcp/udp/ip protocols, http/ftp/dns services, a service whose protocol is missing), two stack paints per URL; "
              "oracle = reference splitter + port rule + canonical unparse + parse(unparse) round trip + identical components under both paints + allocator ledger; "
              "Since rounds 11-12: the name-service table may change between two parses of a run; a service listed under two protocols with different ports (udp first, tcp second). distinct = distinct trace hash; non-trivial = >= 3 URLs",
-             probes=["name_service_changed", "wellformed_url", "proto_is_protocol_name", "service_found_tcp", "service_found_udp_only", "service_proto_missing", "colon_in_password", "query_without_path", "assembled_url_roundtrip", "constructed_from_str_object", "service_with_five_digit_port"]),
+             probes=["name_service_changed", "copy_outlives_original", "wellformed_url", "proto_is_protocol_name", "service_found_tcp", "service_found_udp_only", "service_proto_missing", "colon_in_password", "query_without_path", "assembled_url_roundtrip", "constructed_from_str_object", "service_with_five_digit_port"]),
     "C15": P(["plain5", "plain"], 30, 900,
              "plans = (a) 3..80 tracked malloc/calloc/realloc/strdup/free calls over 12 pointer slots (through spifmem_* and through the MALLOC/REALLOC/FREE macros as library code sees them), "
              "NULL/zero-size/unknown-pointer cases, untracked prefix at runtime level 4, simulated allocator underneath deciding moves and immediate address reuse; tracker table compared with a "
@@ -67,13 +67,13 @@ PROPS = {
              "vobj or str elements) with make/mutate/query/dup/done+re-init/del; allocator policies incl. garbage fill, immediate address reuse and far-apart placement; "
              "after dup: distinct object, same class, type() equal, observer equal; after every op: no other object's observation changed (independence), and "
              "reflexive/antisymmetric/transitive/NULL-first comparison over all same-kind pairs of the pool; Since rounds 10-12: a second generation of mutators and queries (positions from the end, negative counts, the middle of lists, rarer regexp flags, a name service that knows the URL words), a list and its fresh copy read by position (the copy must hand out its own elements), and for array lists and vectors comp EQUAL exactly when the element sequences are the same. distinct = distinct trace hash; non-trivial = >= 3 ops",
-             probes=["extended_mutator_2", "dup", "class_checked", "comp_pair", "comp_null_first", "comp_of_equal_values", "extended_mutator", "tok_quote_characters_changed", "stream_constructor_ok",
+             probes=["extended_mutator_2", "object_is_its_own_argument", "dup", "class_checked", "comp_pair", "comp_null_first", "comp_of_equal_values", "extended_mutator", "tok_quote_characters_changed", "stream_constructor_ok",
                      "empty_container", "list_with_holes", "pair_without_value", "tok_evaluated", "regexp_compiled", "done", "del"]),
     "C06": P(["asan", "asanz"], 30, 900,
              "plans = seeded programs (4..60 ops) over the whole object API (16 kinds as in C05): create, fill, query (everything handed out is deleted by the caller), "
              "copy, done + re-init, property setters, re-evaluation, early deletion; the simulated allocator is the ledger: live set after deleting every object == live set before, "
              "no double free / foreign free / use after free (ASan + allocator), element objects deleted exactly once; Since rounds 10-12: a second generation of mutators and queries (positions from the end, negative counts, the middle of lists, rarer regexp flags, a name service that knows the URL words), a list and its fresh copy read by position, and libc calls that allocate for the caller (getline, strndup, asprintf ...) inside the ledger. distinct = distinct trace hash; non-trivial = >= 3 ops",
-             probes=["extended_mutator_2", "set_with_own_value", "set_with_own_key", "extended_mutator", "map_list_into_given", "stream_constructor_gave_up", "property_set_to_null", "tok_tokens_handed_in",
+             probes=["extended_mutator_2", "object_is_its_own_argument", "set_with_own_value", "set_with_own_key", "extended_mutator", "map_list_into_given", "stream_constructor_gave_up", "property_set_to_null", "tok_tokens_handed_in",
                      "dup", "done", "del", "map_value_overwritten", "list_with_holes", "tok_reevaluated", "property_setter", "removed_element_deleted_by_caller",
                      "key_value_pair_list_deleted", "empty_container", "regexp_recompiled"]),
     "C02": P(["asan", "asanz"], 30, 900,
